@@ -50,4 +50,6 @@ func VerifC10_SwapFeeToken() {
 	}
 	verifAssert(verifSub(offered.BigInt(), burned).Cmp(dust) < 0, "only unconvertible dust stays with the sender")
 	verifAssert(e.bank.get(vModuleAddr(types.ModuleName), a.MinUnit).Sign() == 0 && e.bank.get(vModuleAddr(types.ModuleName), b.MinUnit).Sign() == 0, "nothing left in the module account")
+	// the configured ratio is a setting, not a scratch value: the next swap through the same entry sees it unchanged
+	verifAssert(e.k.registry[a.MinUnit].Ratio.Equal(sdkmath.LegacyOneDec()) && e.k.registry[a.MinUnit].MinUnit == b.MinUnit, "a swap leaves the configured ratio as it was")
 }
